@@ -156,3 +156,27 @@ package arg
 //@   ensures one_per_value: len(result) == len(params)
 //@   ensures zero_pointers_and_interfaces_become_untyped_nil: forall j int :: 0 <= j && j < len(params) && (rt_kind(types[j]) == reflect.Interface || rt_kind(types[j]) == reflect.Ptr) && rv_iszero(params[j]) ==> result[j] == nil
 //@   ensures everything_else_unaltered: forall j int :: 0 <= j && j < len(params) && !((rt_kind(types[j]) == reflect.Interface || rt_kind(types[j]) == reflect.Ptr) && rv_iszero(params[j])) ==> result[j] == rv_content(params[j])
+
+// ---- C04/C09: one expression per configured argument, resolved for that argument's own type ----------------------------
+// Resolve stores the converted comparison value (EqualsExpr) or the resolved sub-expressions (InExpr); rejected
+// values come back as an error or a panic
+//@ extern func (github.com/tencent/goom/arg.Expr).Resolve
+//@   assigns anyfield(EqualsExpr, argV), anyfield(InExpr, expressions), varval
+//@   may_panic
+//@ func ToExpr
+//@   props C04 C09 C13
+//@   requires types: (forall k int :: 0 <= k && k < len(types) ==> types[k] != nil) && (isVariadic ==> len(types) >= 1 && rt_kind(types[len(types) - 1]) == reflect.Slice) && len(types) < 0x20000 && len(args) < 0x10000
+//@   assigns anyfield(EqualsExpr, argV), anyfield(InExpr, expressions), varval
+//@   invariant loop 1 one_expression_per_argument_so_far: -1 <= rangeindex && rangeindex < len(args) && len(expressions) == len(args) && fresh(expressions)
+//@     | && (forall k int :: 0 <= k && k < len(types) ==> types[k] != nil) && (isVariadic ==> len(types) >= 1 && rt_kind(types[len(types) - 1]) == reflect.Slice)
+//@     | && (isVariadic ==> len(args) >= len(types) - 1) && (!isVariadic ==> len(args) == len(types))
+//@     | && (forall j int :: 0 <= j && j <= rangeindex ==> expressions[j] != nil && (implements(args[j], Expr) ==> expressions[j] == args[j]))
+//@   decreases loop 1 len(args) - rangeindex
+//@   ensures count_checked_first: (!isVariadic && len(args) != len(types)) || (isVariadic && len(args) < len(types) - 1) ==> result1 != nil
+//@   ensures one_expression_per_argument: result1 == nil ==> len(result0) == len(args) && forall j int :: 0 <= j && j < len(args) ==> result0[j] != nil && (implements(args[j], Expr) ==> result0[j] == args[j])
+//@   panics_only_if a_value_is_rejected: true
+//@ func Equals
+//@   props C04 C18
+//@   assigns nothing
+//@   fresh
+//@   ensures holds_the_value: result != nil && result.arg == arg
